@@ -204,7 +204,7 @@ def coq_case(sc):
 
 PREAMBLE = "From H2V Require Import Base.Tac Base.Bytes Model.Counts Model.Store.\nLocal Open Scope N_scope.\n"
 
-PROFILES = ("mixed", "reset", "limits", "queue", "shutdown", "legal", "idle")
+PROFILES = ("mixed", "reset", "recv", "limits", "queue", "shutdown", "legal", "idle")
 
 
 def correspond_store(rep, tier, seed, profiles=PROFILES, extra=()):
